@@ -36,7 +36,8 @@ def mc_all(cfg_suffix, fams=FAMS, cfg_override=None):
 
 def run_direct_property(prop, eps, sizes, nrandom, want_default, extra_must=None, mc_suffix=None,
                         cfg_override=None, lifts=1, evidence_extra=None, reject_is_violation=None,
-                        rows_fn=None, fams=FAMS, decl_filter=None, nshards=4, const_twins=False, extra_mc=(), sweeps=False, generic_history=False):
+                        rows_fn=None, fams=FAMS, decl_filter=None, nshards=4, const_twins=False, extra_mc=(), sweeps=False, generic_history=False,
+                        gate_fn=None):
     """Generic driver: model-check the four family slices, replay a seeded sample of the TLC-enumerated
     declarations (every enumerated input and more) into freshly generated code, validate the recorded
     trace against the specification."""
@@ -76,6 +77,28 @@ def run_direct_property(prop, eps, sizes, nrandom, want_default, extra_must=None
             decls = decls + twins
         feats = ["serde", "regex"] if fam == "string" else ["serde"]
         name = "%s_%s" % (prop.lower(), fam)
+        if gate_fn:
+            # declarations derived from the sampled ones that the macro must REFUSE (acceptance = violation);
+            # the sampled originals, which compile, are their positive controls
+            gates, seen_g = [], set()
+            for d in decls:
+                g = gate_fn(d)
+                if g is None:
+                    continue
+                key = json.dumps([g["ty"], g["san"], g["val"], g["traits"]], sort_keys=True)
+                if key not in seen_g:
+                    seen_g.add(key)
+                    gates.append(g)
+            if gates:
+                _o, g_rej, g_alive = CV.build_and_run(name + "_gate", gates, lambda d_: [], feats, feats, nshards=2)
+                by_g = {g["id"]: g for g in gates}
+                for k in g_alive:
+                    g = by_g[k]
+                    verdict.violation({"property": prop, "decl": k, "family": fam, "ty": g["ty"], "kind": "gate_accepted", "tag": "gate",
+                                       "declaration": CV.describe_decl(g),
+                                       "summary": "%s is accepted although it must be refused: %s" % (k, " ".join(CV.describe_decl(g).split())[-200:])})
+                stats["gate_declarations"] = stats.get("gate_declarations", 0) + len(gates)
+                stats["gate_refused"] = stats.get("gate_refused", 0) + len(g_rej)
 
         def rows_of(d, _rng=rng):
             if rows_fn:
@@ -140,6 +163,7 @@ def run_direct_property(prop, eps, sizes, nrandom, want_default, extra_must=None
     cov = {
         "states": mc_states, "transitions": mc_trans,
         "traces_validated_against_impl": stats.get("trace_pairs", 0),
+        "declarations_that_must_be_refused": {"built": stats.get("gate_declarations", 0), "refused": stats.get("gate_refused", 0)},
         "trace_events": stats.get("trace_events", 0),
         "declaration_space_enumerated_by_tlc": n_decl_space,
         "declarations_replayed": len(all_decls),
